@@ -278,9 +278,31 @@ func (x *Exec) applyContract(st *State, c *Contract, fn *ssa.Function, sig *type
 	st.assume(Le(st.alloc, na))
 	st.alloc = na
 	env2 := &Env{x: x, st: st, old: pre, names: names, assuming: true}
+	npc := len(st.pc)
 	for _, cl := range c.Clauses {
 		if cl.Kind == "ensures" {
 			st.assume(env2.evalBool(cl.E))
+		}
+	}
+	// results whose value the contract fixes to a literal are replaced by that literal
+	// (rank-bounded callers rely on concrete lengths to unroll loops)
+	lits := map[string]Term{}
+	for _, f := range st.pc[npc:] {
+		collectLitEqs(f, lits)
+	}
+	if len(lits) > 0 {
+		for i, r := range res {
+			ls := flatten(r)
+			changed := false
+			for j, l := range ls {
+				if v, ok := lits[l.S]; ok && v.Sort == l.Sort {
+					ls[j] = v
+					changed = true
+				}
+			}
+			if changed {
+				res[i] = rebuild(r, ls)
+			}
 		}
 	}
 	cont(st, packResults(res))
@@ -436,16 +458,28 @@ func (x *Exec) loopIsCut(l *Loop) bool {
 func (x *Exec) loopEnv(st *State, l *Loop) *Env {
 	fr := st.frames[0]
 	names := map[string]Value{}
+	declOf := map[string]*ssa.Alloc{}
 	for k, v := range fr.names {
 		names["old_"+k] = v
 	}
-	// current values of named cells
+	// current values of the named cells in scope at the loop header: variables declared
+	// inside the loop body (their Alloc sits in a body block) are not visible to invariants
 	for a, c := range fr.cells {
 		if a.Comment == "" {
 			continue
 		}
+		if l != nil && l.Blocks[a.Block()] {
+			continue
+		}
 		if v, ok := st.cells[c]; ok {
+			if prev, dup := names[a.Comment]; dup && prev != nil {
+				// shadowing outside the loop: keep the innermost (latest) declaration
+				if prevA := declOf[a.Comment]; prevA != nil && prevA.Pos() > a.Pos() {
+					continue
+				}
+			}
 			names[a.Comment] = v
+			declOf[a.Comment] = a
 		}
 	}
 	if l != nil && l.IsRange && l.RICell != nil {
@@ -507,6 +541,47 @@ func (x *Exec) loopEntry(st *State, l *Loop) {
 		st.assume(env.evalBool(cl.E))
 	}
 	st.loopHd[l] = st.clone()
+}
+
+// loopSplits returns the states obtained by fixing a loop variable to each value of a literal range
+// (clause "loop N split v lo hi"); with no such clause the state itself.
+func (x *Exec) loopSplits(st *State, l *Loop) []*State {
+	cls := x.loopClauses(l, "split")
+	if len(cls) == 0 {
+		return []*State{st}
+	}
+	cl := cls[0]
+	env := x.loopEnv(st, l)
+	lo, ok1 := env.evalInt(cl.Exprs[0]).IsLit()
+	hi, ok2 := env.evalInt(cl.Exprs[1]).IsLit()
+	if !ok1 || !ok2 || hi-lo > 16 {
+		return []*State{st}
+	}
+	fr := st.frames[0]
+	var cell *Cell
+	for a, c := range fr.cells {
+		if a.Comment == cl.Label && !l.Blocks[a.Block()] {
+			cell = c
+		}
+	}
+	if cell == nil {
+		x.unsupportedf("loop split: no variable %s", cl.Label)
+	}
+	var out []*State
+	for v := lo; v <= hi; v++ {
+		s2 := st.clone()
+		cur := s2.cells[cell].(Scalar).T
+		s2.assume(Eq(cur, IntLit(v)))
+		if s2.dead {
+			continue
+		}
+		s2.cells[cell] = Scalar{IntLit(v)}
+		s2.path = append(s2.path, fmt.Sprintf("%s=%d", cl.Label, v))
+		hd := s2.clone()
+		s2.loopHd[l] = hd
+		out = append(out, s2)
+	}
+	return out
 }
 
 func rootAlloc(fa *ssa.FieldAddr) (*ssa.Alloc, bool) {
@@ -591,5 +666,34 @@ func (x *Exec) loopBackEdge(st *State, l *Loop) {
 		before := envH.eval(cl.E).(Scalar).T
 		after := env.eval(cl.E).(Scalar).T
 		x.addObl(st, "decreases", fmt.Sprintf("loop%d", l.Ordinal), And(Lt(after, before), Le(IntLit(0), before)), "", "loop variant decreases and is bounded: "+cl.Src)
+	}
+}
+
+
+// collectLitEqs finds conjuncts of the form (= sym literal) / (= literal sym).
+func collectLitEqs(f Term, out map[string]Term) {
+	s := f.S
+	if strings.HasPrefix(s, "(and ") {
+		body := s[5 : len(s)-1]
+		i := 0
+		for i < len(body) {
+			e := sexprEnd(body, i)
+			part := strings.TrimSpace(body[i:e])
+			if part != "" {
+				collectLitEqs(Term{part, SBool}, out)
+			}
+			i = e
+		}
+		return
+	}
+	if strings.HasPrefix(s, "(= ") {
+		body := s[3 : len(s)-1]
+		e1 := sexprEnd(body, 0)
+		a, b := strings.TrimSpace(body[:e1]), strings.TrimSpace(body[e1:])
+		if _, ok := (Term{b, SInt}).IsLit(); ok && !strings.ContainsAny(a, "( ") {
+			out[a] = Term{b, SInt}
+		} else if _, ok := (Term{a, SInt}).IsLit(); ok && !strings.ContainsAny(b, "( ") {
+			out[b] = Term{a, SInt}
+		}
 	}
 }
